@@ -103,7 +103,7 @@ def run_group(g, workroot, extra_defines=(), want_trace=False, only_property=Non
         if rc != 0:
             res["detail"] = "goto-cc failed: " + (se.decode(errors="replace") + so.decode(errors="replace"))[-2000:]
             return res
-        gi = ["goto-instrument", "--dfcc", g.entry]
+        gi = ["goto-instrument", "--dfcc", g.entry, "--no-malloc-may-fail"]
         if g.enforce:
             gi += ["--enforce-contract", g.enforce]
         for r in g.replace:
